@@ -144,6 +144,9 @@ pub struct HalState {
     /// Recently retired DMA ranges (paddr, len), for diagnostics of device use-after-free.
     pub retired_dma: Vec<(u64, u64)>,
     pub mmio_maps: Vec<(u64, usize)>,
+    /// DMA memory the device currently relies on (e.g. GPU resource backing): start -> (len, why).
+    pub pinned: BTreeMap<u64, (u64, &'static str)>,
+    pub pin_check: bool,
     /// Base for the fake MMIO virtual window handed out by `mmio_phys_to_virt`.
     pub mmio_virt_of: Option<fn(u64, usize) -> usize>,
 }
@@ -167,6 +170,8 @@ impl HalState {
             n_dealloc: 0,
             retired_dma: Vec::new(),
             mmio_maps: Vec::new(),
+            pinned: BTreeMap::new(),
+            pin_check: true,
             mmio_virt_of: None,
         }
     }
@@ -534,6 +539,8 @@ pub struct WorldCfg {
     pub spin_hard_limit: u64,
     /// Run device steps at store points.
     pub step_at_stores: bool,
+    /// Report heap blocks freed while they are posted to a live queue (C09 monitor).
+    pub heap_watch: bool,
 }
 
 impl Default for WorldCfg {
@@ -550,6 +557,7 @@ impl Default for WorldCfg {
             spin_idle_limit: 4,
             spin_hard_limit: 50_000_000,
             step_at_stores: true,
+            heap_watch: true,
         }
     }
 }
@@ -893,6 +901,8 @@ impl World {
     }
 
     pub fn hal_event(&mut self, e: HalEv) {
+        // platform calls are driver progress (a busy-wait loop that also consumes completions)
+        self.idle_spins = 0;
         if let Some(t) = &mut self.trace {
             if t.len() < 100_000 {
                 // host pointers are not deterministic across processes: leave them out
@@ -951,6 +961,7 @@ impl World {
             }
             *dq = DevQueue::default();
         }
+        self.hal.pinned.clear();
         if let Some(mut d) = self.dev.take() {
             d.on_reset();
             self.dev = Some(d);
